@@ -335,7 +335,7 @@ fn cmd_check(a: &[String]) -> i32 {
     let _ = std::fs::create_dir_all(&args.replay_dir);
 
     // the job list
-    let base_runs = args.runs.unwrap_or(if args.thorough { 40_000 } else { 1_500 });
+    let base_runs = args.runs.unwrap_or(if args.thorough { 20_000 } else { 1_500 });
     let root = rng::derive(args.seed, &[fnv(&prop), fnv(flav)]);
     let mut jobs: Vec<Job> = (0..base_runs as u64).map(|i| Job::Seeded(rng::derive(root, &[i]))).collect();
     let n_seeded = jobs.len();
@@ -347,7 +347,7 @@ fn cmd_check(a: &[String]) -> i32 {
     // C06: signer-fault enumeration along sampled histories — every signing call of slot 0 of every node
     let mut n_enum = 0usize;
     if prop == "C06" {
-        let sample = if args.thorough { 2_000 } else { 100 };
+        let sample = if args.thorough { 1_000 } else { 100 };
         let mut extra = Vec::new();
         for i in 0..sample.min(n_seeded) {
             if let Job::Seeded(seed) = jobs[i] {
